@@ -3,6 +3,18 @@ import ParryModel.C09.Theorems6
 import ParryModel.C09.Theorems7
 import ParryModel.C09.Theorems8
 import ParryModel.C09.Theorems9
+import ParryModel.C09.Theorems10
+import ParryModel.C09.Theorems11
+import ParryModel.C09.Theorems12
+import ParryModel.C09.Theorems13
+import ParryModel.C09.Theorems14
+import ParryModel.C09.Theorems15
+import ParryModel.C09.Theorems16
+import ParryModel.C09.Theorems17
+import ParryModel.C09.Theorems18
+import ParryModel.C09.Theorems19
+import ParryModel.C09.Theorems20
+import ParryModel.C09.Theorems21
 /-!
 # C09 property theorems (index).
 * `Theorems1` — interval enclosures (`+ - neg *`, enclose, intersect), box algebra, `scaled`, `transform_by`, composites
@@ -15,4 +27,16 @@ import ParryModel.C09.Theorems9
 * `Theorems7` — the `IntervalFunction` contract holds for the polynomial family (non-vacuity of `Theorems6`)
 * `Theorems8` — `Interval::sin` / `Interval::cos` over ℝ
 * `Theorems9` — Ball, Cuboid, Capsule boxes contain the posed shape
+* `Theorems10` — Capsule / Triangle / Segment bounding spheres, `BoundingSphere::{transform_by, loosened, merged}`
+* `Theorems11` — `SimdAabb::{scaled, loosen, dilate_by_factor, contains_local_point, distance_to_local_point, to_merged_aabb}` lanes, `Aabb::tightened`
+* `Theorems12` — tightness: `Aabb::transform_by` is exact; Cuboid, Ball, Capsule, Triangle boxes touch the posed shape on every face
+* `Theorems13` — `SimdAabb::transform_by` lanes (contain, tight), `BoundingSphere::tightened`, histories of `scaled` on TriMesh / Polyline / HeightField
+* `Theorems14` — the sine satisfies the `IntervalFunction` contract over ℝ (mean value theorem): `find_root_intervals` covers every multiple of π
+* `Theorems15` — the `dyn Shape` dispatch: `compute_aabb` / `compute_bounding_sphere` / `compute_swept_aabb` contain the posed shape for EVERY convex kind (RoundShape recursively); `Aabb::bounding_sphere`, composite spheres
+* `Theorems16` — composite tightness: each face of the cached QBVH root box is a face of a leaf; TriMesh / Polyline boxes touch a vertex / segment point on every face
+* `Theorems17` — parry2d: `compute_aabb` / `compute_bounding_sphere` / `compute_swept_aabb` contain the posed shape for every 2-D convex kind
+* `Theorems18` — `find_root_intervals_to` = caller's results ++ `find_root_intervals` (any scalar type); cover transfers
+* `Theorems19` — `Aabb::scaled_wrt_center`, `Aabb::take_point`, the HeightField box is exact (every face carries a vertex)
+* `Theorems20` — parry2d: `Aabb::transform_by` contains / exact, Cuboid / Ball / Capsule / Triangle boxes tight, `Aabb::scaled` and histories in 2-D, ConvexPolygon box exact
+* `Theorems21` — parry2d composites: TriMesh / Polyline / Compound root boxes contain every part
 -/
